@@ -102,24 +102,26 @@ pub fn oracle_eval(name: &str, detail: &str) -> Option<bool> {
             sc.feed(&cc(xm, number / 128));
             sc.feed(&cc(xl, number % 128));
             let expect7 = pn_ctor(if reg == 1 { 4 } else { 0 }, c, number, v);
+            let over: u64 = num(&m, "over").unwrap_or(0);
+            let late_at = timeout.saturating_add(over);
             match n {
                 "c13-early-poll-returns-nothing" | "c13-late-poll-reports-pending-msb" | "c13-reported-once" => {
                     sc.feed(&cc(6, v));
                     let mut early = true;
                     if timeout > 0 { set_now_nanos(timeout - 1); early &= sc.poll(ch(c)).is_none(); early &= sc.poll(ch(c)).is_none(); }
-                    set_now_nanos(timeout);
+                    set_now_nanos(late_at);
                     let late = sc.poll(ch(c)) == Some(expect7);
-                    set_now_nanos(timeout.saturating_add(5));
+                    set_now_nanos(late_at.saturating_add(5));
                     let once = sc.poll(ch(c)).is_none() && sc.poll(ch(c)).is_none();
                     Some(match n { "c13-early-poll-returns-nothing" => early, "c13-late-poll-reports-pending-msb" => early && late, _ => early && late && once })
                 }
                 "c13-unpaired-lsb-dropped-by-late-poll" | "c13-msb-after-dropped-lsb-is-lone" => {
                     let r0 = sc.feed(&cc(38, l));
-                    set_now_nanos(timeout);
+                    set_now_nanos(late_at);
                     let r1 = sc.poll(ch(c));
                     let r2 = sc.feed(&cc(6, v));
                     let dropped = r0 == [None, None] && r1.is_none() && r2 == [None, None];
-                    set_now_nanos(timeout.saturating_mul(2).saturating_add(1));
+                    set_now_nanos(late_at.saturating_add(late_at));
                     let lone = sc.poll(ch(c)) == Some(expect7);
                     Some(if n == "c13-unpaired-lsb-dropped-by-late-poll" { dropped } else { dropped && lone })
                 }
